@@ -428,6 +428,68 @@ theorem argRT_eq_norm_first (name : Str) (p : Param) (edd : Bool) (h : ArgDom na
       norm_nonelike _ d dflt (by rcases hd with h | h; exact Or.inl h; exact Or.inr (Or.inl h)), argFill_list x _ hs]
     simp [firstForm, isOptional_list]
 
+/-! ### the whole list of options (the `require_default` thread) -/
+
+/-- the reading under which `Optional[...]` without default and `Optional[...]` with the code-quoted None are one
+    description (what the differential run compares, `optional_absent_is_none`) -/
+def canonOpt (q : Param) : Param :=
+  if (q.typ.map isOptional).getD false && q.default.isNone then { q with default := some vNoneStr } else q
+
+theorem canonOpt_firstForm (q : Param) : canonOpt (firstForm q) = canonOpt q := by
+  unfold canonOpt firstForm
+  cases q with
+  | mk doc typ dflt =>
+    by_cases h1 : (typ.map isOptional).getD false = true
+    · by_cases h2 : (dflt == some vNoneStr) = true
+      · have : dflt = some vNoneStr := eq_of_beq h2
+        subst this
+        simp [h1]
+      · simp [h1, h2]
+    · simp [h1]
+
+/-- **the statement-level model of a whole argparse function refines the interface-level `norm`**: for ANY number of
+    options of the modelled shapes, whatever the state of `require_default` on entry, the options come back in
+    order, each as `normArgparseParam` says (up to the one reading of `Optional` without a value) -/
+theorem argparseParams_refines (edd : Bool) : ∀ (ps : List (Str × Param)) (rd : Bool),
+    (∀ np ∈ ps, ArgDom np.1 np.2) →
+    ∃ qs, argparseParams edd ps rd = .ok qs ∧
+      qs.map (fun nq => (nq.1, canonOpt nq.2)) = ps.map (fun np => (np.1, canonOpt (normArgparseParam np.2)))
+  | [], _, _ => ⟨[], rfl, rfl⟩
+  | (n, p) :: rest, rd, h => by
+    have hd : ArgDom n p := h (n, p) (by simp)
+    have hrest : ∀ np ∈ rest, ArgDom np.1 np.2 := fun np hnp => h np (by simp [hnp])
+    cases rd with
+    | true =>
+      obtain ⟨qs, hq, hm⟩ := argparseParams_refines edd rest (true || required0Of (normArgparseParam p).default) hrest
+      refine ⟨(n, normArgparseParam p) :: qs, ?_, ?_⟩
+      · simp only [argparseParams, argRT_eq_norm n p edd hd, Res.bind, hq]
+      · simp only [List.map_cons, hm]
+    | false =>
+      obtain ⟨qs, hq, hm⟩ := argparseParams_refines edd rest (false || required0Of (firstForm (normArgparseParam p)).default) hrest
+      refine ⟨(n, firstForm (normArgparseParam p)) :: qs, ?_, ?_⟩
+      · simp only [argparseParams, argRT_eq_norm_first n p edd hd, Res.bind, hq]
+      · simp only [List.map_cons, hm, canonOpt_firstForm]
+
+theorem argparseParams_length (edd : Bool) : ∀ (ps : List (Str × Param)) (rd : Bool) (qs : List (Str × Param)),
+    argparseParams edd ps rd = .ok qs → qs.map (·.1) = ps.map (·.1)
+  | [], _, qs, h => by simp [argparseParams] at h; subst h; rfl
+  | (n, p) :: rest, rd, qs, h => by
+    simp only [argparseParams] at h
+    cases hq : argRT n p edd rd with
+    | ok q =>
+      rw [hq] at h
+      simp only [Res.bind] at h
+      cases hr : argparseParams edd rest (rd || required0Of q.default) with
+      | ok qs' =>
+        rw [hr] at h
+        simp only [Res.ok.injEq] at h
+        subst h
+        simp [argparseParams_length edd rest _ qs' hr]
+      | raises k => rw [hr] at h; simp at h
+      | unmodelled w => rw [hr] at h; simp at h
+    | raises k => rw [hq] at h; simp [Res.bind] at h
+    | unmodelled w => rw [hq] at h; simp [Res.bind] at h
+
 /-! non-vacuity: concrete entries of every shape -/
 example : ArgDom "size".toList { doc := some "the size".toList, typ := some tInt, default := some (.int true ['3']) } :=
   .scalarLit "the size".toList (.int true ['3']) (by unfold plainDoc; decide) trivial rfl
